@@ -130,50 +130,59 @@ def matchPathInclusion (st : State) (m : Pat) (pn : Option (List Nat)) : Bool :=
 def matchPathExclusion (m : Pat) (pn : Option (List Nat)) : Bool :=
   patMatches m.pat pn { noStart := true, noEnd := true }
 
-/-- First loop of `path_excluded`: "Mark off any unmatched inclusions".  Returns the list, how
-many were newly marked, and whether any was (`matched != NULL`). -/
+/-- First loop of `path_excluded`: "Mark off any unmatched inclusions".  Returns the list and how
+many were newly marked (`matched != NULL` ⇔ that number is not 0). -/
 def markInclusions (st : State) (pn : Option (List Nat)) : List Pat → List Pat × Nat
   | [] => ([], 0)
   | m :: ms =>
-    let (ms', k) := markInclusions st pn ms
-    if !m.matched && matchPathInclusion st m pn then ({ m with matched := true } :: ms', k + 1)
-    else (m :: ms', k)
+    let r := markInclusions st pn ms
+    if !m.matched && matchPathInclusion st m pn then ({ m with matched := true } :: r.1, r.2 + 1)
+    else (m :: r.1, r.2)
+
+/-- The rest of `path_excluded()` once the inclusions are marked (`incl`, `k` newly marked). -/
+def pathVerdict (st : State) (incl : List Pat) (k : Nat) (pn : Option (List Nat)) : Int :=
+  -- Exclusions take priority
+  if st.exclusions.any (matchPathExclusion · pn) then 1
+  -- It's not excluded and we found an inclusion above, so it's included.
+  else if k ≠ 0 then 0
+  -- We didn't find an unmatched inclusion, check the remaining ones.
+  else if incl.any (fun m => m.matched && matchPathInclusion st m pn) then 0
+  -- If there were inclusions, default is to exclude.
+  else if !incl.isEmpty then 1
+  -- No explicit inclusions, default is to match.
+  else 0
 
 /-- `path_excluded()`: the state afterwards and the value returned. -/
 def pathExcluded (st : State) (pn : Option (List Nat)) : State × Int :=
-  let (incl, k) := markInclusions st pn st.inclusions
-  let st' := { st with inclusions := incl, unmatchedCount := st.unmatchedCount - k }
-  -- Exclusions take priority
-  if st.exclusions.any (matchPathExclusion · pn) then (st', 1)
-  -- It's not excluded and we found an inclusion above, so it's included.
-  else if k ≠ 0 then (st', 0)
-  -- We didn't find an unmatched inclusion, check the remaining ones.
-  else if incl.any (fun m => m.matched && matchPathInclusion st m pn) then (st', 0)
-  -- If there were inclusions, default is to exclude.
-  else if !incl.isEmpty then (st', 1)
-  else (st', 0)
+  let r := markInclusions st pn st.inclusions
+  ({ st with inclusions := r.1, unmatchedCount := st.unmatchedCount - r.2 }, pathVerdict st r.1 r.2 pn)
 
 /-- `archive_match_path_unmatched_inclusions` -/
 def unmatchedInclusions (st : State) : Int := st.unmatchedCount
 
-/-- `match_list_unmatched_inclusions_next`: `none` = ARCHIVE_EOF, `some p` = ARCHIVE_OK with `*vp = p`. -/
-def unmatchedNextStep (st : State) : State × Option (List Nat) :=
-  if st.unmatchedEof then ({ st with unmatchedEof := false }, none)
+/-- `match_list_unmatched_inclusions_next`: new `unmatched_next`, new `unmatched_eof`, and the
+answer (`none` = ARCHIVE_EOF, `some p` = ARCHIVE_OK with `*vp = p`). -/
+def unmatchedNextCalc (st : State) : Option Nat × Bool × Option (List Nat) :=
+  if st.unmatchedEof then (st.unmatchedNext, false, none)
   else
     let start : Option Nat :=
       match st.unmatchedNext with
       | some i => some i
       | none => if st.unmatchedCount = 0 then none else some 0
     match start with
-    | none => (st, none)
+    | none => (st.unmatchedNext, st.unmatchedEof, none)
     | some i =>
       match (st.inclusions.drop i).findIdx? (fun m => !m.matched) with
-      | none => ({ st with unmatchedNext := none }, none)
+      | none => (none, st.unmatchedEof, none)
       | some j =>
         let k := i + j
         let nxt := if k + 1 < st.inclusions.length then some (k + 1) else none
-        ({ st with unmatchedNext := nxt, unmatchedEof := nxt.isNone },
-          (st.inclusions[k]?).map (·.pat))
+        -- "To return EOF next time."
+        (nxt, nxt.isNone, (st.inclusions[k]?).map (·.pat))
+
+def unmatchedNextStep (st : State) : State × Option (List Nat) :=
+  let r := unmatchedNextCalc st
+  ({ st with unmatchedNext := r.1, unmatchedEof := r.2.1 }, r.2.2)
 
 /-! ### times -/
 
@@ -315,11 +324,11 @@ def apiOwnerExcluded (st : State) (e : Entry) : Int :=
 
 /-- `archive_match_excluded`: "Convenience function to perform all exclusion tests." -/
 def excluded (st : State) (e : Entry) : State × Int :=
-  let (st1, r) := if st.patternSet then pathExcluded st e.path else (st, 0)
-  if r ≠ 0 then (st1, r)
-  else
-    let r := if st1.timeSet && timeExcluded st1 e then 1 else 0
-    if r ≠ 0 then (st1, r)
-    else (st1, if st1.idSet && ownerExcluded st1 e then 1 else 0)
+  let r1 := if st.patternSet then pathExcluded st e.path else (st, 0)
+  (r1.1,
+    if r1.2 ≠ 0 then r1.2
+    else if r1.1.timeSet && timeExcluded r1.1 e then 1
+    else if r1.1.idSet && ownerExcluded r1.1 e then 1
+    else 0)
 
 end LA.Match
